@@ -87,8 +87,8 @@ class CachingLoaderMixin(ABC, _CachingLoaderProtocol):
             self.cache[cache_key] = template
             return template
 
-        if globals:
-            cached_template.globals = globals
+        # Bind this request's globals, just like a freshly loaded template would.
+        cached_template.globals = globals or {}
         return cached_template
 
     async def _check_cache_async(
@@ -110,8 +110,8 @@ class CachingLoaderMixin(ABC, _CachingLoaderProtocol):
             self.cache[cache_key] = template
             return template
 
-        if globals:
-            cached_template.globals = globals
+        # Bind this request's globals, just like a freshly loaded template would.
+        cached_template.globals = globals or {}
         return cached_template
 
     def load(
